@@ -80,6 +80,8 @@ func (c03) Cases(tier string, seed uint64) []fw.Case {
 	cases = append(cases, flowCases(tier, seed)...)
 	cases = append(cases, ginitCases(tier, seed)...)
 	cases = append(cases, memCases(tier, seed)...)
+	cases = append(cases, scopeCases(tier, seed)...)
+	cases = append(cases, importCases(tier, seed)...)
 	cases = append(cases, corpusCases()...)
 	return cases
 }
